@@ -173,6 +173,8 @@ add("C19",
 # ---------------------------------------------------------------- C03
 LOADER = "dateparser/languages/loader.py"
 add("C03",
+    V("revert-fix-abbreviations-first-caller", "C03", [(LOCALE, "        # the dictionary depends on the settings (SKIP_TOKENS), so do the abbreviations\n        if settings.registry_key not in self._abbreviations:\n            self._abbreviations[settings.registry_key] = [\n                item for item in dictionary if item.endswith(\".\") and len(item) > 1\n            ]\n        return self._abbreviations[settings.registry_key]\n", "        abbreviations = []\n        if not self._abbreviations:\n            for item in dictionary:\n                if item.endswith(\".\") and len(item) > 1:\n                    abbreviations.append(item)\n            self._abbreviations = abbreviations\n        return self._abbreviations\n")], "fire", "C03.R5",
+      note="the abbreviations computed from the first caller's dictionary serve every later caller"),
     V("callers-list-sorted-in-validation", "C03", [(CONF, "    if len(setting_value) != len(set(setting_value)):", "    setting_value.sort()\n    if len(setting_value) != len(set(setting_value)):")], "fire", "C03.R1"),
     V("skip-tokens-extended-in-place", "C03", [(DICT, "        self._settings = settings\n        self.info = locale_info\n", "        self._settings = settings\n        self.info = locale_info\n        if settings is not None and \"t\" not in settings.SKIP_TOKENS:\n            settings.SKIP_TOKENS.append(\"t\")\n")], "fire", "C03.R1"),
     V("languages-kept-by-reference-and-extended", "C03", [(DATE, "        self.languages = list(languages) if languages else None", "        self.languages = languages if languages else None"),
@@ -193,6 +195,8 @@ add("C03",
 
 # ---------------------------------------------------------------- C20
 add("C20",
+    V("revert-fix-abbreviations-first-caller", "C20", [(LOCALE, "        # the dictionary depends on the settings (SKIP_TOKENS), so do the abbreviations\n        if settings.registry_key not in self._abbreviations:\n            self._abbreviations[settings.registry_key] = [\n                item for item in dictionary if item.endswith(\".\") and len(item) > 1\n            ]\n        return self._abbreviations[settings.registry_key]\n", "        abbreviations = []\n        if not self._abbreviations:\n            for item in dictionary:\n                if item.endswith(\".\") and len(item) > 1:\n                    abbreviations.append(item)\n            self._abbreviations = abbreviations\n        return self._abbreviations\n")], "fire", "C20.R1",
+      note="the abbreviations computed from the first caller's dictionary serve every later caller"),
     V("new-global-counter", "C20", [(DATE, "        if not isinstance(date_string, str):\n            raise TypeError(\"Input type must be str\")\n",
                                      "        if not isinstance(date_string, str):\n            raise TypeError(\"Input type must be str\")\n        self._get_locale_loader()._loaded_locales.pop(\"zz\", None)\n")], "fire", "C20.R1"),
     V("new-temporary-override", "C20", [(DP, "        date_obj, period = parse_method(date_string, settings=settings, tz=ptz)\n", "        settings.RETURN_AS_TIMEZONE_AWARE = True if ptz else settings.RETURN_AS_TIMEZONE_AWARE\n        date_obj, period = parse_method(date_string, settings=settings, tz=ptz)\n")], "fire", "C20.R1"),
